@@ -1119,6 +1119,17 @@ func (rw *rewriter) stmt(s ast.Stmt) ast.Stmt {
 			}}
 			return &ast.DeferStmt{Call: &ast.CallExpr{Fun: &ast.FuncLit{Type: &ast.FuncType{Params: &ast.FieldList{}}, Body: body}}}
 		}
+		// A deferred call must stay THE deferred call: wrapping it as an argument (After(call))
+		// would evaluate it at the defer statement instead of at function exit.
+		if name, _, isAt := rw.atomicCall(x.Call); isAt {
+			rw.noWrap[x.Call] = true
+			r := rw.expr(x.Call)
+			if rc, ok := r.(*ast.CallExpr); ok && rc == x.Call {
+				sid := rw.newSite(x.Pos(), "atomic:"+name)
+				body := &ast.BlockStmt{List: []ast.Stmt{stmt(x.Call), stmt(call("PostSync", sid))}}
+				return &ast.DeferStmt{Call: &ast.CallExpr{Fun: &ast.FuncLit{Type: &ast.FuncType{Params: &ast.FieldList{}}, Body: body}}}
+			}
+		}
 		r := rw.expr(x.Call)
 		if rc, ok := r.(*ast.CallExpr); ok {
 			x.Call = rc
@@ -1259,6 +1270,7 @@ func (rw *rewriter) goStmt(g *ast.GoStmt) ast.Stmt {
 	}
 
 	// go f(a, b...)  =>  { tok := Spawn(); zzF, zzA0 := f, a; go func(){ Start(tok); zzF(zzA0, b...) }() }
+	rw.noWrap[g.Call] = true
 	g.Call.Fun = rw.expr(g.Call.Fun)
 	var lhs, rhs []ast.Expr
 	fn := g.Call.Fun
